@@ -98,7 +98,7 @@ class TemplateWriter(IWriter):
         search.write_lunr_index(self.build_directory, system=system)
         system.msg('html', "took %fs"%(time.time() - T), wantsnl=False)
 
-        if len(system.root_names) == 1:
+        if len(system.root_names) == 1 and list(system.root_names)[0] not in model.RESERVED_PAGE_NAMES:
             # If there is just a single root module it is written to index.html to produce nicer URLs.
             # To not break old links we also create a symlink from the full module name to the index.html
             # file. This is also good for consistency: every module is accessible by <full module name>.html
